@@ -15,6 +15,11 @@ LEVEL_TEXT = ('bounded symbolic model checking of the rewind contract: every rul
 S0, S1, S2 = 'sym<0>', 'sym<1>', 'sym<2>'
 EXTRA = [
     ('tc_any', 'try_catch_any_return_false< %s, must< %s > >' % (S0, S1), None),
+    # single-rule forms: the exception leaves a sub-rule that consumed before it threw and no inner guard exists
+    ('tc_any_single', 'try_catch_any_return_false< %s >' % S0, None),
+    ('tc_type_single', 'try_catch_type_return_false< verif_exc, %s >' % S0, None),
+    ('tc_any_if_must', 'try_catch_any_return_false< if_must< %s, %s > >' % (S0, S1), None),
+    ('tc_any_plus', 'try_catch_any_return_false< plus< %s, must< %s > > >' % (S0, S1), None),
     ('tc_type', 'try_catch_type_return_false< verif_exc, %s, %s >' % (S0, S1), None),
     ('tcn_any', 'try_catch_any_raise_nested< named< 0, %s, %s > >' % (S0, S1), None),
     ('at_seq', 'at< %s, %s >' % (S0, S1), None),
@@ -68,7 +73,7 @@ def plan(ctx):
         for c in cases:
             head = c['cxx'].split('<')[0].strip()
             key = head + ('/' + str(c['cxx'].count('sym')) if head in ('seq', 'sor', 'rematch', 'until', 'must', 'opt_must', 'if_must') else '') + ('::' if '::' in c['cxx'] else '')
-            if key in seen or c['heavy']:
+            if (key in seen and not c['name'].startswith('x_')) or c['heavy']:
                 continue
             seen.add(key)
             keep.append(c)
@@ -78,13 +83,13 @@ def plan(ctx):
         if c['heavy']:
             n = 3
         unit = ctx.unit('c02_' + c['name'], text=symgen.wrapper_text([c], includes=[c['inc']] if c['inc'] else (), variants='7'))
-        text, low, seen = symgen.harness_text(c, n, K, doc, maxres=3, variants=('ar', 'ao', 'pr', 'po', 'qr'), bytes_=c['bytes'], k2=c['k2'])
+        text, low, seen = symgen.harness_text(c, n, K, doc, maxres=3, variants=('ar', 'ao', 'pr', 'po', 'qr', 'xr', 'xo'), bytes_=c['bytes'], k2=c['k2'])
         h = ctx.write('h_%s.c' % c['name'], text)
-        for grp in (('ar', 'ao'), ('pr', 'po'), ('qr',)):
+        for grp in (('ar', 'ao'), ('pr', 'po'), ('qr', 'xr', 'xo')):
             cd = {'VF_SPLIT': 1}
             cd.update(('V_' + v, 1) for v in grp)
             qs.append(vf.Query('sym/%s/%s' % (c['name'], '+'.join(grp)), unit, h, unwind=n + 3, cbmc_defines=cd,
-                               bounds={'N': n, 'K': K, 'rule': c['cxx'], 'variants': grp, 'actions': 'none' if grp[0][0] == 'a' else 'void apply' if grp[0][0] == 'p' else 'void apply0'},
+                               bounds={'N': n, 'K': K, 'rule': c['cxx'], 'variants': grp, 'actions': 'none' if grp[0][0] == 'a' else 'void apply' if grp[0][0] == 'p' else 'void apply0 / void apply with apply_mode::nothing'},
                                mem_gb=3 if c['heavy'] else 2, note='rewind contract of %s over symbolic sub-rules' % c['cxx']))
     NA = 4 if ctx.quick() else 6
     for c in leaf_cases():
@@ -127,6 +132,10 @@ static void harness(void) {
         h = ctx.write('c_%s.c' % c['name'], CONTRACT % c)
         qs.append(vf.Query('contract/' + c['name'], unit, h, unwind=c['NA'] + 3, mem_gb=3, bounds={'bytes': c['NA'], 'rule': c['cxx']},
                            note='rewind contract of %s on symbolic bytes' % c['cxx']))
+    # if_apply with a vetoing action, at top level and directly under opt<>/sor<> (no enclosing guard): protocol harness (veto table)
+    import evplan
+    from props import C04
+    qs += evplan.queries(ctx, 'c02', [g for g in C04.GRAMMARS if g[0].startswith('if_apply_')], ['plain'], N, modes=('ar', 'ao'))
     # http chunk helper rules (state-taking match functions)
     hu = ctx.unit('c02_http', cpp=os.path.join(vf.VERIF, 'harness', 'c02_http.cpp'))
     # http::chunk as a whole (size, ext, CRLF, data, CRLF) gave no verdict within 800 s / 10 GB at 4 bytes: only its two hand-written match functions are claimed
